@@ -1,2 +1,76 @@
-Theorem C07_placeholder : True. Proof. exact I. Qed.
-Print Assumptions C07_placeholder.
+(* C07 — operand expressions evaluate as integer arithmetic.
+   ExprEval.evaluate_expression is the literal model of expr.go evaluateExpression
+   (combineSigns, flipDoubleNegatives, then go/types.Eval modelled by the
+   precedence-climbing evaluator of ExprSpec on the fragment {literals, + - * / %,
+   unary signs, parentheses}, then the 32-bit range check); it is run against gmars
+   on every run (hook kind 22 and whole programs).  ExprSpec.expr / denote is the
+   mathematical meaning: exact integers, usual precedence, left associativity,
+   division and remainder truncating toward zero, any run of unary signs. *)
+From GM Require Import Base Text Token Lexer Scanner ExprSpec ExprEval Parser Compile Sim
+     C07Parser C07Signs C07Model C07Proof.
+Open Scope Z_scope.
+
+(* every expression tree (any nesting, any run of stacked signs, redundant parentheses), written
+   out token by token exactly as the tree says: evaluateExpression returns its value when it fits
+   32 bits, and an error when a division by zero occurs anywhere or the value does not fit *)
+Theorem C07_evaluates :
+  forall e, ok e ->
+    evaluate_expression (map inj (print e)) =
+    match denote e with
+    | Some v => if int32_ok v then EOk v else EErr
+    | None => EErr
+    end.
+Proof. exact evaluate_printed. Qed.
+Print Assumptions C07_evaluates.
+
+(* what reaches the evaluator after sign folding and double-negative rewriting is again a printed
+   tree with the same value and with no "++" or "--" in it *)
+Theorem C07_sign_rewriting :
+  forall e, ok e ->
+    flip_double_negatives (combine_signs (map inj (print e))) = map inj (print (signs_norm e)) /\
+    ok (signs_norm e) /\ denote (signs_norm e) = denote e /\ adjacency (print (signs_norm e)) = AdjOk.
+Proof.
+  intros e Hok. destruct (signs_norm_ok e Hok) as [N1 [N2 N3]].
+  split; [rewrite combine_signs_inj, flip_dn_inj, signs_tokens; reflexivity|].
+  split; [exact N1|]. split; [exact N2|].
+  rewrite <- (app_nil_r (print (signs_norm e))). apply adj_print; [exact N3|reflexivity|exact I].
+Qed.
+Print Assumptions C07_sign_rewriting.
+
+(* the evaluator itself: usual precedence and left associativity *)
+Theorem C07_reference_evaluator : forall e, ok e -> eval_tokens (print e) = denote e.
+Proof. exact eval_print. Qed.
+Print Assumptions C07_reference_evaluator.
+
+(* the value is then reduced into [0, core size) *)
+Theorem C07_reduced_mod : forall v m, 0 < m -> norm_field v m = Z.to_N (v mod m).
+Proof. exact norm_field_mod. Qed.
+Print Assumptions C07_reduced_mod.
+
+(* the predefined names are the configuration's values *)
+Theorem C07_constants :
+  forall cfg,
+    sym_find (s2t "CORESIZE") (load_constants cfg) = Some [num_tok (c_size cfg)] /\
+    sym_find (s2t "MAXLENGTH") (load_constants cfg) = Some [num_tok (c_len cfg)] /\
+    sym_find (s2t "MAXPROCESSES") (load_constants cfg) = Some [num_tok (c_procs cfg)] /\
+    sym_find (s2t "MINDISTANCE") (load_constants cfg) = Some [num_tok (c_dist cfg)] /\
+    forall n, evaluate_expression [num_tok n] = if int32_ok (Z.of_N n) then EOk (Z.of_N n) else EErr.
+Proof. intros cfg. destruct (constants_lookup cfg) as [A [B [C D]]]. repeat split; try assumption. exact eval_num. Qed.
+Print Assumptions C07_constants.
+
+(* an assertion passes exactly when its expression evaluates to a non-zero value *)
+Theorem C07_assert :
+  forall m c txt v,
+    eval_assert m c txt = Some (EOk v) <->
+    exists toks e, lex_ascii txt = Some toks /\
+                   expand_expression (expand_fuel c) m c 0 (removelast toks) = Some (Some e) /\
+                   evaluate_expression e = EOk v /\ v <> 0.
+Proof. exact assert_passes. Qed.
+Print Assumptions C07_assert.
+
+(* the hypotheses are met by   - - 3 * ( 2 - - 4 ) / - + - 2   whose value is 9 *)
+Example C07_example :
+  let e := Bin ODiv (Bin OMul (Sgn true (Sgn true (Lit 3))) (Par (Bin OSub (Lit 2) (Sgn true (Lit 4)))))
+               (Sgn true (Sgn false (Sgn true (Lit 2)))) in
+  ok e /\ denote e = Some 9 /\ evaluate_expression (map inj (print e)) = EOk 9.
+Proof. cbv zeta. split; [cbn; lia|]. split; [reflexivity|]. vm_compute. reflexivity. Qed.
